@@ -57,6 +57,8 @@ def transition_table(repo, fi, member_name, ctx_field, opaque):
                     p = p["pat"]
                 if p["k"] == "PIdent" and p["name"] not in env:
                     env[p["name"]] = SymObj(p["name"], ("named", "Context") if p["name"] == "ctx" else ("named", "?"))
+        if isinstance(fi.impl, dict):
+            ev.impl_stack.append(fi.impl.get("self_ty"))  # so that Self::helper(..) resolves inside the region
         elem = TupleV([SymObj("i", ("int",)), SymObj(member_name, ("named", "?"))])
         if kind_ == "closure":
             cl = m["args"][0]
